@@ -319,6 +319,34 @@ def rule_r2(chk, db, prep, abi, a_out):
             chk.verdict(("S3Extensions", "credentials") in sl.fields, "R2", "hook-identity", prep.loc(bi), "the identity shown to the access hook is not the verified s3ext.credentials")
 
 
+def rule_r10(chk, db):
+    """the identity is the presented access key, verbatim, on both sides: the provider shipped with the adapter looks the secret up under
+    exactly the key it was asked for.  (The verifiers copy the presented key into the credentials as it is; a provider that trims or
+    case-folds before its lookup verifies a request under one key while hooks and backend see another - a deny-list keyed on the access key
+    is bypassed by padding it.)"""
+    from .c12 import lossy_ops
+    impls = [b for b in db.bodies.values() if b.crate == "s3s" and b.name.startswith("s3s::auth::") and "::tests::" not in b.name and
+             any(short(callee_def(t)) in ("get", "get_key_value", "contains_key", "binary_search_by_key", "binary_search_by") and
+                 ("collections" in callee_def(t) or "hash" in callee_def(t).lower() or "slice" in callee_def(t)) for _, t in b.calls())]
+    n = 0
+    for b in impls:
+        for bi, t in b.calls():
+            d = callee_def(t)
+            if short(d) not in ("get", "get_key_value", "contains_key", "binary_search_by_key", "binary_search_by") or not ("collections" in d or "hash" in d.lower() or "slice" in d):
+                continue
+            if len(t["args"]) < 2:
+                continue
+            sl = flow.backward(b, t["args"][1], at=bi)
+            if not sl.params:
+                continue
+            n += 1
+            lossy = lossy_ops(sl)
+            chk.verdict(not lossy, "R10", "provider-looks-up-verbatim@%s#%d" % (short(db.root_of(b).name), bi), b.loc(bi),
+                        "the provider rewrites the presented access key (%s) before it looks the secret up: the request is verified under one key "
+                        "while the credentials shown to hooks and backend carry the presented text" % ", ".join(sorted({short(x) for x in lossy})))
+    chk.floor("R10", n, 1, "key lookups in the provided S3Auth implementation")
+
+
 def rule_r5(chk, db, roles):
     """ops::call: Operation::call only under Prepare::S3; route.call only after route.check_access succeeded"""
     def performs_call(b):
@@ -496,6 +524,8 @@ def run(chk, db, tier):
         chk.guard("R2", rule_r2, db, prep, abi, a_out)
     chk.guard("R5", rule_r5, db, roles)
     chk.guard("R6", rule_r6, db, roles)
+    chk.rule("R10", "the provided S3Auth looks the secret up under the presented access key verbatim (no trimming / case folding before the lookup)")
+    chk.guard("R10", rule_r10, db)
     chk.guard("R7", rule_r7, db, roles)
     # R8 = V3 + V1 for every verifier (an accepted identity is always a verified one)
     vs = sigcore.find_verifiers(db)
